@@ -79,6 +79,11 @@ def make_layouts(rng, n_eng, n_lines, same=False):
             pos = sorted(rng.sample(range(T), min(T, len(text))))
             for p, ch in zip(pos, text):
                 L[p, chars.index(ch)] += peak
+            if len(text) >= 3 and len(pos) == len(text) and rng.random() < 0.35:
+                # the reader hesitates at the first (last) character between it and the LAST (first) character of the line
+                a, b = (0, -1) if rng.random() < 0.5 else (-1, 0)
+                if text[a] != text[b]:
+                    L[pos[a], chars.index(text[b])] += peak - rng.choice([0.1, 0.5, 1.0])
             if mode > 0.9:
                 T = max(1, len(text) - 1)   # too short to align -> ValueError path -> 0.5
                 L = L[:T]
@@ -100,6 +105,38 @@ def make_layouts(rng, n_eng, n_lines, same=False):
     if same:
         layouts = [layouts[0]] + [copy.deepcopy(layouts[0]) for _ in range(n_eng - 1)]
     return layouts
+
+
+def ref_confidences(line):
+    """The mean character confidence as the property defines it, computed independently of get_line_confidence: probability of the
+    aligned label minus the best competing probability in the character's window (the label itself and its two neighbours in the
+    text excused, blank excluded), clipped at 0; 0.5 per character when the line cannot be aligned."""
+    from pero_ocr.core.force_alignment import align_text
+    text = line.transcription
+    if not text:
+        return np.asarray([])
+    labels = [line.characters.index(c) for c in text]
+    lp = np.asarray(line.get_full_logprobs(), dtype=np.float64)
+    probs = np.exp(lp)
+    T, C = probs.shape
+    if T == len(labels):
+        return np.array([probs[i, l] for i, l in enumerate(labels)])
+    try:
+        al = [int(a) for a in align_text(-lp, np.asarray(labels), C - 1)]
+    except ValueError:
+        return np.ones(len(labels)) * 0.5
+    ends = al + [max(1000, T)]
+    out, last = [], 0
+    for i, l in enumerate(labels):
+        nb = (ends[i] + 1 + ends[i + 1]) // 2
+        window = probs[last:nb]
+        if window.shape[0] == 0:
+            return np.ones(len(labels)) * 0.5
+        excused = {l} | ({labels[i - 1]} if i > 0 else set()) | ({labels[i + 1]} if i + 1 < len(labels) else set())
+        other = max([0.0] + [float(window[t, c]) for t in range(window.shape[0]) for c in range(C - 1) if c not in excused])
+        out.append(max(0.0, float(probs[ends[i], l]) - other))
+        last = nb
+    return np.asarray(out)
 
 
 def run(ctx):
@@ -131,6 +168,12 @@ def _run(ctx):
             for line in pl.lines_iterator():
                 c = ms.get_confidences(line)
                 row.append(float(c.mean()) if c.size > 0 else -10.0)
+                rc = ref_confidences(line)
+                if rc.shape != np.asarray(c).shape or (rc.size and np.abs(rc - c).max() > 1e-9):
+                    ctx.violation('confidence-source', "an engine's character confidences are not 'probability of the aligned label minus the best competing "
+                                  "probability (label and text neighbours excused), clipped at 0': the merge would rank the engines by other numbers",
+                                  dict(text=line.transcription, characters=line.characters, logits=np.round(line.logits.toarray(), 4).tolist()),
+                                  np.asarray(c).tolist(), rc.tolist())
             confs.append(row)
         inp = dict(engines=n_eng, lines=n_lines, self_merge=same, regions=[[len(r.lines) for r in pl.regions] for pl in before],
                    texts=[[l.transcription for l in pl.lines_iterator()] for pl in before], confidences=confs,
